@@ -34,6 +34,10 @@ static Plan gen_c09(uint64_t seed, const std::string &tier) {
             e.path = "/bin/" + m; size_t na = (size_t)r.range(0, 3); e.argv.push_back(m + "a0"); for (size_t k = 0; k < na; k++) e.argv.push_back(m + gen_token(r, 0, 12, 0));
             if (r.chance(1, 10)) { e.argv.clear(); e.argv_null = true; }
             e.success = false; e.err = (int)r.range(1, 40); e.ret = -1;
+            if (r.chance(1, 5)) {   // error paths under concurrency: the call is then history (not judged against the model)
+                static const char *kinds[] = {"open", "read", "write", "close", "socket", "connect", "send", "getpwuid_r", "ttyname_r", "getlogin_r"};
+                Fault f; f.kind = kinds[r.below(10)]; f.nth = (int)r.below(3); f.err = r.chance(1, 2) ? 5 : 13; e.faults.push_back(f);
+            }
             calls.push_back(e);
         }
         b.threads.push_back(calls);
@@ -55,8 +59,10 @@ static Verdict oracle_c09(const Plan &p, const RunResult &r) {
         const ExecObs *o = obs_of(r, cv.opi); if (!o || o->real_calls == 0) return bad("call-incomplete", "call #" + std::to_string(cv.opi) + " did not reach the real exec");
         Verdict v = passthrough_oracle(*cv.op, *o, r);
         if (v.violated) return v;
-        RecJudge j = judge_record(cv, r);
-        if (j.v.violated) { j.v.cls = "thread-" + j.v.cls; return j.v; }
+        if (cv.op->faults.empty()) {
+            RecJudge j = judge_record(cv, r);
+            if (j.v.violated) { j.v.cls = "thread-" + j.v.cls; return j.v; }
+        }
         std::string got; for (auto &d : deliveries_all(r, cv.opi)) got += d.bytes;
         for (int i = 0; i < nmark; i++) {
             std::string m = marker_of(i);
@@ -79,6 +85,7 @@ static void describe_c09(const Plan &p, const RunResult &r, J &line) {
     if (b && b->policy == 1) line.set("p_pct_d" + std::to_string(b->pct_d), true);
     if (r.blocked_on_mutex) line.set("p_blocked_on_mutex", true);
     if (p.extra.geti("threads") >= 16) line.set("p_stress_batch", true);
+    for (auto &o : r.obs) if (!o.fired.empty()) line.set("p_fault_under_concurrency", true);
 }
 static Reg reg_c09({"C09", gen_c09, oracle_c09, abort_sched, describe_c09});
 
